@@ -54,6 +54,11 @@ class TypeOverwriting(Transformation):
             for n in type_graph.keys()
             if n.is_omittable() and not (
                 isinstance(n, tda.DeclarationNode) and n.decl.name == tda.RET
+            ) and not (
+                # Type arguments that are inferred (e.g., after type erasure)
+                # are not printed: overwriting them changes nothing.
+                isinstance(n, tda.TypeConstructorInstantiationCallNode) and
+                getattr(n.t, 'can_infer_type_args', False)
             )
         ]
         if not candidate_nodes:
